@@ -12,8 +12,11 @@ D(n) == Dec(n, "plain")
 
 \* configurations: <<prec, inc, a valid price, a price with one decimal too many, bid fee, ask attrs, bid attrs>>
 Cfgs == {
-  [m |-> InstMsg("ats", "base", <<"cv1">>, <<"q1", "q2">>, <<"appr1">>, <<"exec1">>, NoFeeInfo, NoFeeInfo, <<>>, <<>>, 0, 1),
-   price |-> D(20000), fine |-> D(15000), size |-> 2],
+  \* precision 0; bid fee 0.25 of a total of 10 is an exact .5 tie; the contract's own base denomination is
+  \* also listed as convertible (instantiation allows it): asks in it are plain all the same
+  [m |-> InstMsg("ats", "base", <<"cv1", "base">>, <<"q1", "q2">>, <<"appr1">>, <<"exec1">>, NoFeeInfo,
+                 FeeInfo("bidfee1", D(2500)), <<>>, <<>>, 0, 1),
+   price |-> D(50000), fine |-> D(15000), size |-> 2],
   [m |-> InstMsg("ats", "base", <<"cv1">>, <<"q1", "q2">>, <<"appr1">>, <<"exec1">>, NoFeeInfo,
                  FeeInfo("bidfee1", D(2500)), <<"kyc">>, <<"kyc", "acc">>, 1, 10),
    price |-> D(15000), fine |-> D(12500), size |-> 20],
